@@ -59,6 +59,7 @@ type Exec struct {
 	callN        map[string]int
 	assertN      int
 	assertSeen   map[string]int
+	curCall      *ssa.CallCommon
 	lastResult   map[string]Val
 }
 
